@@ -50,6 +50,8 @@ func genRouteRule(r *rng) string {
 	}
 }
 
+func regexpMatch(re, s string) (bool, error) { return regexp.MatchString(re, s) }
+
 func rxCandidates(rule string) []string {
 	c := []string{rule}
 	for i := 0; i < len(rule); i++ {
